@@ -371,3 +371,21 @@ Definition mux_model_ok (c : mux_case) : bool :=
 Definition c06_mux_violations (cs : list mux_case) : list nat := first_indices (fun c => negb (mux_ok c)) cs.
 Definition c06_mux_mismatches (cs : list mux_case) : list nat :=
   first_indices (fun c => let '(_, _, _, alive, _, _, _) := c in alive && negb (mux_model_ok c)) cs.
+
+(* ---------- concurrent stress: requests of every kind while acknowledgements arrive ---------- *)
+(* (the process survived — a runtime fatal error kills it — and every request returned; Err() after
+   the peer closed; state log is [Active; Closed(err)] with Done closed). The broker sent
+   well-formed acknowledgements only. *)
+Definition conc_case := (bool * option perr * bool)%type.
+
+Definition conc_ok (c : conc_case) : bool :=
+  let '(alive, err, closed_ok) := c in alive && closed_ok && err_is is_eof err.
+
+(* the model's answer for a stream of well-formed packets that ends: io.EOF
+   (Parse_proofs.serve_wellformed_then_eof) *)
+Definition conc_model_ok (c : conc_case) : bool :=
+  let '(alive, err, closed_ok) := c in option_eqb perr_eqb err (Some EEOF).
+
+Definition c06_conc_violations (cs : list conc_case) : list nat := first_indices (fun c => negb (conc_ok c)) cs.
+Definition c06_conc_mismatches (cs : list conc_case) : list nat :=
+  first_indices (fun c => let '(alive, _, _) := c in alive && negb (conc_model_ok c)) cs.
